@@ -283,10 +283,16 @@ def translate_stage(ctx, rd):
 
 
 # ------------------------------------------------------------------------------------------
-def make_table(system, rng, S, nrows, with_v=True):
+# data of a higher symmetry are consistent data of the lower one: a free component of the declared system is then an
+# all-zero column (e.g. c15 of trigonal7 for a trigonal6 crystal) - still supplied, still counted for sufficiency
+SUPER = {"trigonal7": "trigonal6", "tetragonal7": "tetragonal6", "trigonal6": "hexagonal", "monoclinic": "orthorhombic",
+         "tetragonal6": "cubic", "orthorhombic": "tetragonal6"}
+
+
+def make_table(system, rng, S, nrows, with_v=True, data_system=None):
     """symmetry-consistent table: columns S (random order = order of S, random letter case),
     optional leading V column; returns (cols, tensors)"""
-    tensors = [random_invariant(system, rng) for _ in range(nrows)]
+    tensors = [random_invariant(data_system or system, rng) for _ in range(nrows)]
     cols = []
     if with_v:
         cols.append(("V", [round(60.0 + 7.5 * r + rng.random(), 4) for r in range(nrows)]))
@@ -345,7 +351,11 @@ def run(ctx):
                 S = list(range(NSYM))
                 rng.shuffle(S)
                 ctx.count("all 21 components supplied")
-            cols, tensors = make_table(system, rng, S, nrows, with_v=rng.random() < 0.7)
+            data_system = SUPER.get(system) if ci % 8 == 3 else None
+            if data_system:
+                S = random_sufficient_set(system, rng, extra=False)
+                ctx.count("higher-symmetry data (free component all zero)")
+            cols, tensors = make_table(system, rng, S, nrows, with_v=rng.random() < 0.7, data_system=data_system)
             int_table = (ci % 4 == 1)
             if int_table:
                 # the same invariant tensor field scaled to whole numbers and held in int64 columns (what
